@@ -526,7 +526,9 @@ fn run_saved(prop: &dyn Property, tier: Tier) -> (Vec<String>, Vec<(Violation, V
         if f.gen_version != Some(u64::from(GEN_VERSION)) {
             lines.push(format!("NOTE: property={id} reproducer of {} was recorded with generator version {:?}, current is {GEN_VERSION}: regenerate it (regen_reproducers.py)", f.signature, f.gen_version));
         }
-        let strict = Ctx { tier, known: BTreeSet::new(), want_sample: false, strict: true };
+        // stored inputs (reproducers, regressions) were recorded under the quick tier's profile and
+        // are decoded under it in every tier, as `--replay` does
+        let strict = Ctx { tier: Tier::Quick, known: BTreeSet::new(), want_sample: false, strict: true };
         // timing-dependent cases: try a few times
         let mut hit = false;
         let mut other: Option<Violation> = None;
@@ -571,7 +573,7 @@ fn run_saved(prop: &dyn Property, tier: Tier) -> (Vec<String>, Vec<(Violation, V
             let Ok(v) = serde_json::from_str::<Value>(&s) else { continue };
             let Some(input) = v.get("input").and_then(Input::from_json) else { continue };
             n += 1;
-            let c = Ctx { tier, known: known.clone(), want_sample: false, strict: false };
+            let c = Ctx { tier: Tier::Quick, known: known.clone(), want_sample: false, strict: false };
             let out = prop.run(&input, &c);
             if let Some(e) = out.harness_error {
                 herr.push(e);
